@@ -33,6 +33,7 @@ SOFTWARE.
 """
 
 #%%
+import math
 import numpy as np
 from . import _n_word_max
 
@@ -452,6 +453,15 @@ def scale_raw(x, n_shift):
         if max(abs(int(np.max(x))), abs(int(np.min(x)))).bit_length() + n_shift >= 63:
             return np.array(x.astype(object) * 2**n_shift, dtype=object)
     return x * 2**n_shift
+
+def round_object(x, method):
+    # rounding of python numbers (object arrays are used for values beyond 64 bits): integers are kept, finite floats are rounded one by one
+    _round = {'around': round, 'floor': math.floor, 'ceil': math.ceil, 'fix': math.trunc, 'trunc': math.trunc}.get(method)
+    x = np.asarray(x, dtype=object)
+    if _round is None:
+        return x
+    vals = [_round(v) if isinstance(v, float) and math.isfinite(v) else v for v in x.flatten()]
+    return np.array(vals, dtype=object).reshape(x.shape)
 
 def get_sizes_from_dtype(dtype):
     if isinstance(dtype, str):
